@@ -84,6 +84,50 @@ def _rows_same(r1, r2, ordered=True):
     return len(r1) == len(r2) and all(len(x) == len(y) and all(_same(p, q) for p, q in zip(x, y)) for x, y in zip(r1, r2))
 
 
+def x3_run(carve):
+    """a table that other tables were derived from still exports the same way on every target - also an expression export
+    (`col.export`) of an aggregate over a grouped table after `group_by(.., add=True)` / `ungroup` / `mutate` were applied to it"""
+    import polars as pl
+    import sqlalchemy as sqa
+
+    from .c13 import _enum_outcome
+
+    df = pl.DataFrame({"a": [1, 1, 2, 2, 3, 3], "b": ["x", "y", "x", "y", "x", "x"], "v": [5, 2, 5, 40, 16, 40]})
+    eng = sqa.create_engine("sqlite://")
+    df.write_database("t", eng)
+    n, bad = 0, []
+    with warnings.catch_warnings():
+        warnings.simplefilter("ignore")
+        for be in ("polars", "sqlite"):
+            t = pdt.Table(df, name="t") if be == "polars" else pdt.Table("t", pdt.SqlAlchemy(eng))
+            tg = t >> pdt.group_by(t.a)
+
+            def snap():
+                m = tg >> pdt.mutate(x=tg.v.sum()) >> pdt.ungroup() >> pdt.arrange(t.a, t.b, t.v) >> pdt.export(pdt.Polars())
+                e = sorted(tg.v.sum().export(pdt.Polars()).to_list())
+                s_ = tg >> pdt.summarize(x=tg.v.sum()) >> pdt.arrange(t.a) >> pdt.export(pdt.DictOfLists())
+                return m["x"].to_list(), e, s_
+
+            before = snap()
+            derivations = {
+                "group_by(b, add=True)": lambda: tg >> pdt.group_by(t.b, add=True), "ungroup": lambda: tg >> pdt.ungroup(), "mutate": lambda: tg >> pdt.mutate(v=t.v * 2),
+                "group_by(b, add=True) >> summarize": lambda: tg >> pdt.group_by(t.b, add=True) >> pdt.summarize(n=pdt.count()), "rename": lambda: tg >> pdt.rename({"v": "w"}), "select": lambda: tg >> pdt.select(t.a),
+            }
+            for label, mk in derivations.items():
+                n += 1
+                try:
+                    mk() >> pdt.export(pdt.Polars())
+                    after = snap()
+                except Exception as e:  # noqa: BLE001
+                    bad.append(f"[{be}] after deriving `{label}` from the grouped table: {type(e).__name__}: {str(e)[:100]}")
+                    continue
+                if after != before:
+                    bad.append(f"[{be}] after deriving `{label}` from the grouped table tg, tg >> mutate(x=v.sum()) / tg.v.sum().export / tg >> summarize give {after}; before: {before}")
+                if sorted(before[0]) != before[1]:
+                    bad.append(f"[{be}] tg.v.sum().export(Polars()) = {before[1]} differs from the column mutate computes: {sorted(before[0])}")
+    return _enum_outcome("exports of a table (all targets, expression export) are unaffected by tables derived from it", n, bad)
+
+
 def extra_shapes():
     """final steps that produce null-only columns, single-cell and empty results"""
     C = pdt.C
@@ -296,6 +340,8 @@ def obligations(tier):
 
     fns = [fi(V.export), fi(CE.ColExpr.export), fi(CE.get_expr_as_table), fi(PB.PolarsImpl.export), fi(SB.SqlImpl.export), fi(V.collect)]
     obs = [Obligation("C20/X1/single_frame", "X1", "non-frame targets are functions of one exported frame", x1_run, functions=fns[:3])]
+    obs.append(Obligation("C20/X3/exports_of_a_reused_table", "X3", "exports (table, expression, summarize) of a grouped table are unaffected by tables derived from it", x3_run, functions=fns[:2] + [fi(H.pdt._internal.pipe.cache.Cache.update)],
+                          bounded="6 derivations x 2 backends on one 6-row table"))
     S = P.steps()
     kinds = ("mixed", "empty", "single") if tier == "quick" else ("mixed", "empty", "single", "tall")
     for be in ("polars", "sqlite"):
